@@ -1,6 +1,8 @@
 package main
 
 import (
+	"io"
+	"crypto/md5"
 	"bytes"
 	"encoding/binary"
 	"fmt"
@@ -1090,6 +1092,10 @@ func (w *World) copyTo(op Op, h *Handle) string {
 		if d := DecodeModel(img); d != "timeout" && !(strings.HasPrefix(d, "ok ") && strings.SplitN(d, " ", 3)[2] == exp) && !(exp == "" && (d == "empty" || strings.HasPrefix(d, "ok "))) {
 			return "dst-decode-differs: " + trunc(d, 200)
 		}
+		// the destination file, byte for byte, vs CopyRun.copy_result (CopyTo as a history of the destination store)
+		if m := copyRunMismatch(w, h, op.N, img); m != "" {
+			return m
+		}
 		// only live data: each item record exactly once
 		want := map[string]int{}
 		for _, c := range h.Ref.Colls {
@@ -1140,4 +1146,50 @@ func (w *World) loadTimeComparators(r *RefStore) {
 			c.Cmp = 0
 		}
 	}
+}
+
+var copyRunCompared int
+
+// copyRunMismatch asks the model for the destination file CopyTo must leave (CopyRun.copy_result: SetCollection per
+// source collection in name order, SetItem in ascending key order, a Flush after every flushEvery-th item and a closing
+// Flush) and compares length and MD5.  Sources with callbacks that change the stored bytes are skipped.
+func copyRunMismatch(w *World, h *Handle, fe int, img []byte) string {
+	if fe <= 0 || h.Ref == nil || w.ChunkMem || valOverhead != 0 || bytesUnspecified {
+		return ""
+	}
+	var lines []string
+	total := 0
+	for _, n := range h.Ref.names() {
+		c := h.Ref.Colls[n]
+		lines = append(lines, fmt.Sprintf("coll %s %d", hx([]byte(n)), c.Cmp))
+		for _, it := range c.Items {
+			if len(it.Key) > 1500 || len(it.Val) > 6000 {
+				return ""
+			}
+			total += len(it.Key) + len(it.Val)
+			lines = append(lines, fmt.Sprintf("item %s %s %d", hx(it.Key), hx(it.Val), it.Prio))
+		}
+	}
+	if total > 20000 {
+		return ""
+	}
+	m := getModel()
+	req := fmt.Sprintf("copyrun %d %d\n", fe, len(lines))
+	if len(lines) > 0 {
+		req += strings.Join(lines, "\n") + "\n"
+	}
+	if _, err := io.WriteString(m.in, req); err != nil {
+		return ""
+	}
+	line, err := m.out.ReadString('\n')
+	if err != nil {
+		return ""
+	}
+	line = strings.TrimRight(line, "\n")
+	copyRunCompared++
+	got := fmt.Sprintf("ok %d %x", len(img), md5.Sum(img))
+	if line != got {
+		return "dst-file-differs-from-model: CopyRun.copy_result predicts " + line + ", the destination file is " + got
+	}
+	return ""
 }
